@@ -68,6 +68,19 @@ add("C16", "sched", "exhaustive schedule enumeration (stateless DFS) under a det
     "Interleavings are controlled only at the sync_point hooks (cfg edp_rs_verif); a rewrite that drops the hooks is only reachable by the stress and history campaigns. The 2^32-call horizon of reference words is outside every history.",
     "DESIGN.md §7 C16")
 
+add("C04", "netbed", "stateful property-based testing of the handshake API against a peer model (proptest histories) + scripted-peer fault injection over loopback under a harness-owned virtual clock",
+    "(a) Generated call histories on HandshakeStateMachine (any order, valid/invalid arguments, reuse after disconnect) with a peer model that learns this side's challenge only from the 'r' message; (b) Connection::connect() against a scripted responder with every deviation at every step (refusals, wrong/misdirected digests, malformed/truncated/oversized frames, out-of-order ack, close, reset, silence). Connected <=> correct ack for this handshake's challenge; flags = intersection; n/c/r layouts and digests checked with an own MD5; errors within the configured timeout in virtual time; no panic.",
+    "Own MD5 and handshake layouts from the OTP docs; virtual time moves only when the script advances it (auto-advance inhibited), real-time watchdog => inconclusive.",
+    "DESIGN.md §7 C04")
+add("C06", "netbed", "model-based property testing: scripts from a conforming sender model (pass-through / distribution header with persistent atom cache / fragments / ticks / junk) over a real loopback socket with generated TCP segmentation",
+    "Generated scripts of valid messages of every control kind in every wire form, interleaved with ticks and malformed frames, are written in arbitrary segments; Connection::receive_message and receive_message_from_read_half must return each valid message exactly once, in order, unchanged, with at most one error per bad frame and no panic.",
+    "Known open finding C06-F1 (messages in >= 2 fragments, root cause C09-F1); junk never poses as a header frame of the connection.",
+    "DESIGN.md §7 C06")
+add("C07", "netbed", "property-based testing with an independent protocol reader on the peer side + generated task schedules at instrumented yield points (concurrent senders through one Node)",
+    "Sequences of the six send-side operations with generated arguments in both framing modes (incl. asymmetric flag offers, unencodable operations, never-connected and closed connections) are read back by an independent deframer and reader and compared with the protocol's control tuple; 1..5 tasks issue operations through one Node under generated schedules that yield between the partial writes of a frame: frames must not interleave and per-task order must hold.",
+    "Task interleaving is controlled at sched_point hooks and real I/O waits only.",
+    "DESIGN.md §7 C07")
+
 hooks_commits = []
 try:
     out = subprocess.run(["git", "-C", "/repo", "log", "--format=%H %s"], capture_output=True, text=True).stdout
@@ -92,6 +105,8 @@ m = {
          "kind_free_text": "baton-passing deterministic scheduler for OS threads driven through the sync_point hook, stateless DFS over schedules"},
         {"name": "isolate", "path": "harness/verif/src/isolate.rs", "serves_properties": ["C02"],
          "kind_free_text": "isolated worker process (2 MiB-stack threads, counting allocator) so crashes and blow-ups are observed, not suffered"},
+        {"name": "netbed", "path": "harness/verif/src/netbed.rs", "serves_properties": ["C04", "C06", "C07", "C17", "C18", "C19"],
+         "kind_free_text": "network test-bed: fake EPMD, scripted peer over loopback, harness-owned virtual clock (paused tokio clock with auto-advance inhibited), kernel-queue settling, panic capture, real-time watchdog"},
         {"name": "refmodel", "path": "harness/refmodel", "serves_properties": sorted(CHECKS),
          "kind_free_text": "independent reference model: Erlang values, ETF reader/writer, term order, MD5, protocol tables (no dependency on the crates under test)"},
     ],
